@@ -341,6 +341,23 @@ static std::vector<Case> build_cases(mon::Rng& rng)
     c.call = [](Obs& o) { (*Wd::tptr<char[8]>(*SB, 4272)).copy_and_verify([&](const std::array<char, 8>& v) { observe(o, v.data(), 8); return 0; }); };
     cs.push_back(c);
   }
+  // multi-dimensional arrays (element type with the same representation on both sides: the whole-array copy is one verbatim
+  // copy whose size has to be that of the WHOLE array): every element the verifier sees must come from the source
+  {
+    int32_t arr[3][4] = { { 1, 2, 3, 4 }, { -5, -6, -7, -8 }, { 0x7fffffff, 10, 11, 12 } };
+    Case c; c.name = "copy_and_verify/volatile-array-int3x4"; c.off = 4352; c.len = 48; c.A = Bytes(reinterpret_cast<unsigned char*>(arr), reinterpret_cast<unsigned char*>(arr) + 48); c.acts = val_acts;
+    c.elems = [](const Bytes& s) { return decode_elems<int, int32_t>(s, 12); };
+    c.call = [](Obs& o) { (*Wd::tptr<int[3][4]>(*SB, 4352)).copy_and_verify([&](auto v) { static_assert(sizeof(v) == sizeof(int) * 12); observe(o, &v, sizeof(v)); return 0; }); };
+    cs.push_back(c);
+  }
+  {
+    char arr[4][8];
+    for (int i = 0; i < 32; i++) reinterpret_cast<char*>(arr)[i] = static_cast<char>('A' + i % 26);
+    Case c; c.name = "copy_and_verify/volatile-array-char4x8"; c.off = 4416; c.len = 32; c.A = Bytes(reinterpret_cast<unsigned char*>(arr), reinterpret_cast<unsigned char*>(arr) + 32); c.acts = val_acts;
+    c.elems = [](const Bytes& s) { return decode_elems<char, char>(s, 32); };
+    c.call = [](Obs& o) { (*Wd::tptr<char[4][8]>(*SB, 4416)).copy_and_verify([&](const auto& v) { static_assert(sizeof(v) == 32); observe(o, &v, sizeof(v)); return 0; }); };
+    cs.push_back(c);
+  }
   {
     int32_t val = 424242;
     Case c; c.name = "copy_and_verify/volatile-int/const-ref-verifier"; c.off = 4288; c.len = 4; c.A = Bytes(reinterpret_cast<unsigned char*>(&val), reinterpret_cast<unsigned char*>(&val) + 4); c.acts = val_acts;
